@@ -1,6 +1,7 @@
 package main
 
 import (
+	mbits "math/bits"
 	"fmt"
 	"go/token"
 	"go/types"
@@ -609,35 +610,58 @@ func (in *Interp) intrinsic(fr *Frame, name string, args []Value, fn *ssa.Functi
 
 	// ---------------- sort
 	case "sort.SliceStable", "sort.Slice":
+		// the real algorithm, interpreted from the standard library's SSA
+		// (stable_func / pdqsort_func over a lessSwap pair): with a comparator
+		// that is not a strict weak order the result depends on the algorithm,
+		// so a simpler stand-in would diverge from the native run
 		s := args[0].(Iface).v.(Slice)
-		less := args[1]
-		if s.len > 12 && name == "sort.SliceStable" {
-			in.note("sort.SliceStable modelled as insertion sort for every length (stable; Go uses block insertion + symmerge above 20)")
-		}
-		// Go's stable sort is insertion sort for n <= 20 blocks; identical
-		// result for any stable algorithm when less is a consistent order.
-		for i := 1; i < s.len; i++ {
-			for j := i; j > 0; j-- {
-				r := in.callValue(fr, less, []Value{int64(j), int64(j - 1)})
-				var lt bool
-				switch c := r.(type) {
-				case bool:
-					lt = c
-				case *Term:
-					lt = in.decide(c)
-				}
-				if !lt {
-					break
-				}
-				a, b := s.arr.elems[s.off+j], s.arr.elems[s.off+j-1]
-				av, bv := a.v, b.v
-				in.setCell(a, bv)
-				in.setCell(b, av)
-				fixParents(a)
-				fixParents(b)
+		var sortPkg *ssa.Package
+		for _, p := range in.prog.AllPackages() {
+			if p.Pkg.Path() == "sort" {
+				sortPkg = p
 			}
 		}
+		if sortPkg == nil || sortPkg.Type("lessSwap") == nil {
+			panic(pathAbort{"unsupported: package sort not loaded"})
+		}
+		ls := newStruct(sortPkg.Type("lessSwap").Type())
+		ls.fields[0].v = args[1]
+		ls.fields[1].v = &Closure{intr: "symgo.swap", recv: s}
+		if name == "sort.SliceStable" {
+			in.callFn(fr, sortPkg.Func("stable_func"), []Value{ls, int64(s.len)}, nil)
+		} else {
+			in.callFn(fr, sortPkg.Func("pdqsort_func"), []Value{ls, int64(0), int64(s.len), int64(mbits.Len(uint(s.len)))}, nil)
+		}
 		return nil
+	case "symgo.swap":
+		s := args[0].(Slice)
+		i, j := int(args[1].(int64)), int(args[2].(int64))
+		if i < 0 || j < 0 || i >= s.len || j >= s.len {
+			panic(rtPanic("rt:index", "index out of range (sort swap)"))
+		}
+		a, b := s.arr.elems[s.off+i], s.arr.elems[s.off+j]
+		av, bv := a.v, b.v
+		in.setCell(a, bv)
+		in.setCell(b, av)
+		fixParents(a)
+		fixParents(b)
+		return nil
+	case "math/bits.Len", "math/bits.Len64":
+		if x, ok := args[0].(int64); ok {
+			return int64(mbits.Len64(uint64(x)))
+		}
+	case "math/bits.Len32":
+		if x, ok := args[0].(int64); ok {
+			return int64(mbits.Len32(uint32(x)))
+		}
+	case "math/bits.LeadingZeros64", "math/bits.LeadingZeros":
+		if x, ok := args[0].(int64); ok {
+			return int64(mbits.LeadingZeros64(uint64(x)))
+		}
+	case "math/bits.TrailingZeros64", "math/bits.TrailingZeros":
+		if x, ok := args[0].(int64); ok {
+			return int64(mbits.TrailingZeros64(uint64(x)))
+		}
 	case "sort.Strings":
 		s := args[0].(Slice)
 		if s.len > 1 {
